@@ -1,6 +1,7 @@
 import Gomjml.Core.Tag
 import Gomjml.Core.InlineTagProofs
 import Gomjml.Core.InlineScan
+import Gomjml.Core.InlineCss
 import Gomjml.Gen.ClassSites
 /-! # C19 — inline CSS is applied completely and touches nothing but style attributes (property theorems only)
 
@@ -110,5 +111,31 @@ open Gomjml.InlineScan in
 /-- **no targeted class, no change**: when no class value gets declarations the fragment comes out byte for byte -/
 theorem C19_scan_untargeted_identity (inl : List Gomjml.Amp.B → List Gomjml.Amp.B) (h : ∀ c, inl c = []) (s : List Gomjml.Amp.B) :
     scan inl s = s := scan_id inl h s
+
+/-! ## from the style text to the table the renderer inlines (`mjml/inline_styles.go`, byte-exact Model) -/
+open Gomjml.InlineCss in
+/-- **the declarations of a class are those of every rule that names it** — for every list of inline style texts and every
+    class name, the table built by `collectInlineClassStyles` (rule by rule, selector by selector, appending to whatever the
+    class already has) holds exactly: the declarations of each rule that names the class as a lone selector, once per
+    naming, in source order.  Grouped selectors, repeated selectors, rules for other classes in between, several style blocks:
+    nothing leaks from one class's list into another's and nothing is lost -/
+theorem C19_table_is_spec (texts : List (List Gomjml.Amp.B)) (c : List Gomjml.Amp.B) :
+    (collect texts).get c = spec texts c := collect_spec texts c
+
+open Gomjml.InlineCss in
+/-- only a lone class selector is inlined: a dot, a non-empty name, and nothing that continues the selector
+    (no descendant, compound, pseudo-class, attribute or universal part) -/
+theorem C19_lone_class_only (sel name : List Gomjml.Amp.B) (h : extractClass sel = some name) :
+    trimSpace sel = 46 :: name ∧ name ≠ [] ∧ ∀ b ∈ name, b ∉ combinators := extractClass_lone sel name h
+
+open Gomjml.InlineCss in
+/-- non-vacuity, on `.a, .b { color: red; } .a.x { top: 0 } .a { margin: 0 } .b{padding:4px}`: class `a` gets colour and
+    margin, class `b` colour and padding, the compound selector gives nothing to anybody -/
+example :
+    let css : List Gomjml.Amp.B := [46, 97, 44, 32, 46, 98, 32, 123, 32, 99, 111, 108, 111, 114, 58, 32, 114, 101, 100, 59, 32, 125, 32, 46, 97, 46, 120, 32, 123, 32, 116,
+      111, 112, 58, 32, 48, 32, 125, 32, 46, 97, 32, 123, 32, 109, 97, 114, 103, 105, 110, 58, 32, 48, 32, 125, 32, 46, 98, 123, 112, 97, 100, 100, 105, 110, 103, 58, 52, 112, 120, 125]
+    (collect [css]).get [97] = [⟨[99, 111, 108, 111, 114], [114, 101, 100]⟩, ⟨[109, 97, 114, 103, 105, 110], [48]⟩] ∧
+    (collect [css]).get [98] = [⟨[99, 111, 108, 111, 114], [114, 101, 100]⟩, ⟨[112, 97, 100, 100, 105, 110, 103], [52, 112, 120]⟩] ∧
+    (collect [css]).get [120] = [] := by decide
 
 end Gomjml.Props.C19
